@@ -334,6 +334,12 @@ func c14Round(t *testing.T, rec *ev.Rec, round int) {
 			{"price/vault-draw", owner, &vaulttypes.MsgDrawRequest{From: owner.Addr.String(), AppId: app, ExtendedPairVaultId: p.ID, UserVaultId: v.Id, Amount: p.P.DebtFloor}},
 			{"price/vault-deposit-and-draw", owner, &vaulttypes.MsgDepositAndDrawRequest{From: owner.Addr.String(), AppId: app, ExtendedPairVaultId: p.ID, UserVaultId: v.Id, Amount: small}},
 		}
+		if pNew != nil {
+			d2 := pNew.P.DebtFloor.MulRaw(25)
+			opener := c.Accts[len(c.Accts)-1]
+			priceCells = append(priceCells, cell{"price/vault-create", opener, &vaulttypes.MsgCreateRequest{From: opener.Addr.String(), AppId: app, ExtendedPairVaultId: pNew.ID,
+				AmountIn: r.collateralFor(pNew, d2, pNew.P.MinCr.MulInt64(1000).TruncateInt64()*3), AmountOut: d2}})
+		}
 		if app == appBeacon {
 			priceCells = append(priceCells, cell{"price/liquidate-message-gen2", fresh, &liqV2types.MsgLiquidateInternalKeeperRequest{From: fresh.Addr.String(), LiqType: 0, Id: v.Id}})
 		} else {
@@ -352,9 +358,17 @@ func c14Round(t *testing.T, rec *ev.Rec, round int) {
 				}
 				px, _ := u.price(a)
 				name := cl.name
-				e.refuse(name, cl.signer, cl.msg,
-					func() { u.setPrice(a.Denom, px, false) },
-					func() { u.setPrice(a.Denom, px, true) })
+				if (len(reads)+int(assetID))%2 == 0 {
+					// the price record is missing altogether
+					name += "/record-absent"
+					e.refuse(name, cl.signer, cl.msg,
+						func() { c.App.MarketKeeper.DeleteTwaData(c.Ctx(), a.ID) },
+						func() { u.setPrice(a.Denom, px, true) })
+				} else {
+					e.refuse(name, cl.signer, cl.msg,
+						func() { u.setPrice(a.Denom, px, false) },
+						func() { u.setPrice(a.Denom, px, true) })
+				}
 				rec.Count("price_cells_checked", 1)
 			}
 		}
